@@ -19,24 +19,33 @@ from vlib.core import sx, q
 
 PROP = "C17"
 MODE = "fsm"
-RULE = ("machines with 1-4 states and 1-3 payload fields (u64 scalars, [u64] vectors): the documented machines "
-        "(counter, fibonacci, traffic light, clamp, turnstile, vector sum/reverse/max/bubble pass) and randomly generated "
-        "transition systems with literal-pattern arms, guard arms whose guards overlap (order matters), fall-through to "
-        "later arms, loops and array-pattern states, each run on all inputs of a small domain with transition limits "
-        "1..64 (so that the same machine is seen terminating, hitting the limit exactly, and cut off); non-terminating "
-        "machines; ill-formed declarations (transition/start to a state without arm, declared or not; declared state "
-        "without arm; arm'd state missing from the specification; no specification); wrong argument kinds and counts. "
-        "non-trivial = distinct case whose run reached an output arm or the transition limit and whose result AND "
-        "traced state sequence (state names, scalar payloads, vector lengths, arm and guard index per step) equal the model's")
+RULE = ("machines with 1-4 states (5 for the bubble sort of the test suite) and 1-3 payload fields (u64 scalars, [u64] vectors): "
+        "the documented machines (counter, fibonacci, traffic light, clamp, turnstile) and vector machines (sum, reverse, max, "
+        "ends, bubble sort, literal heads), machines whose guards overlap in every order, literal-pattern arms in every order, "
+        "guard arms that fall through to later arms, and randomly generated transition systems (scalar and array-pattern "
+        "states: [], [x], [x | t], [a, b | t], [x ...], [a ... b], literal elements); each run on all inputs of a small domain "
+        "(scalars 0,1,2,3,5; vectors of length 1-4) with transition limits 0..64, so that the same machine is seen terminating, "
+        "hitting the limit exactly, and cut off; non-terminating machines; ill-formed declarations (transition/start to a state "
+        "without arm, declared or not; declared state without arm; arm'd state missing from the specification; no "
+        "specification); wrong argument kinds (u8, u32, i64, f64, bool, string, vectors for scalars and vice versa, f64/u8/bool "
+        "vectors, wrong fixed shape) and counts; inputs without kind annotation; ill-scoped and ill-kinded machines (advisory). "
+        "non-trivial = distinct case whose run reached an output arm or the transition limit and whose result AND traced state "
+        "sequence (state names, scalar payloads, vector lengths, arm and guard index per iteration) equal the model's")
 ASSUMPTIONS = [
     "the visited states are observed through the interpreter's own trace facility (cargo feature `trace` of mech-interpreter, "
     "Interpreter::trace_events): per iteration the state tuple (name, scalar payload values; vectors only as kind+shape) and the "
     "index of the arm / guard that fired; vector contents are compared only in the final result",
-    "payload and output kinds are u64 / [u64]; arithmetic overflow (dev profile: error) is advisory",
-    "Interpreter.max_steps is set per case (1..64) instead of the default 1000000",
+    "payload and output kinds are u64 / [u64]; arithmetic is u64 of the dev profile (overflow = error); runs in which an "
+    "expression fails to evaluate are advisory, as are runs that halt because no arm applies (the interpreter returns the state)",
+    "binding verdicts are given for well-scoped declarations only (every arm uses its own pattern's variables and inputs no "
+    "pattern rebinds; C17_lexical_scoping); the interpreter's environment leak between arms is modelled but advisory",
+    "Interpreter.max_steps is set per case (0..64, thorough: ..200) instead of the default 1000000; an invocation that gives no "
+    "answer within 120 s is reported as a hang (= violation)",
+    "error kinds are compared by name (FsmUndefinedState, FsmArgumentKindMismatch, IncorrectNumberOfArguments, "
+    "FsmExceededTransitionLimit); a rejection must come with an empty trace",
 ]
 TRIVIAL_TAGS = ["rejected-state", "rejected-argkind", "rejected-argcount"]
-STALL = 60.0
+STALL = 120.0
 
 U64 = ("ks", "u64")
 VEC = ("kv", "u64")
@@ -746,7 +755,7 @@ def generate(tier, rng):
 
     # 1. documented machines x all small inputs x several limits
     for label, d, in_tys in documented:
-        ins = input_domain(in_tys, rng, 14 if quick else 200)
+        ins = input_domain(in_tys, rng, 12 if quick else 200)
         for args in ins:
             lims = [64] + rng.sample(LIMITS[:-1], 1 if quick else 5)
             if label == "vbubble":
@@ -755,7 +764,7 @@ def generate(tier, rng):
                 yield make_case(d, list(args), m, dict(stream="documented", machine=label, limit=m))
 
     # 2. random scalar machines and random vector machines
-    n_rand = (110, 90) if quick else (1500, 1200)
+    n_rand = (90, 75) if quick else (1500, 1200)
     randoms = []
     for with_vec, n in ((False, n_rand[0]), (True, n_rand[1])):
         for k in range(n):
@@ -776,7 +785,7 @@ def generate(tier, rng):
 
     # 4. ill-formed declarations
     base = [(l, d, t) for (l, d, t) in documented if l in ("counter", "traffic", "turnstile", "fallthrough", "vsum", "vbubble", "literal-arms1", "clamp")]
-    pool = [(l, d, t) for (l, d, t) in base] + [("random", d, t) for d, t in rng.sample(randoms, 24 if quick else 300)]
+    pool = [(l, d, t) for (l, d, t) in base] + [("random", d, t) for d, t in rng.sample(randoms, 20 if quick else 300)]
     for label, d, in_tys in pool:
         good = [A(2) if t == "n" else V(2, 1, 3) for t in in_tys]
         for vl, v in ill_formed_variants(d, rng):
